@@ -192,6 +192,10 @@ func checkC07(c *Ctx, r *Report) {
 		// and the compared values are the wire's own checksum bytes (layout: Checksum1 = d2, Checksum2 = last byte)
 	}
 
+	// (c') the wrappers and the message layer never read beyond the datagram: a length field exceeding
+	// the data, or a body shorter than the minimum, cannot be decoded (engine E1 on these decoders)
+	checkLenflowFor(c, r, "wrappers-in-bounds", []string{"V2Session", "V1Session", "Message", "SDR", "FullSensorRecord"})
+
 	// (c) session wrapper windows — in the layout table (BaseLayer.Payload); V1: payload window must honour Length
 	r.Rule("v1-length-honoured", "the v1.5 session wrapper rejects a length field that exceeds the data", 1)
 	if fn := c.Method("pkg/ipmi", "V1Session", "DecodeFromBytes"); fn == nil {
